@@ -242,8 +242,9 @@ def _memoised_results(ctx):
                               "bionumpy.encodings.string_encodings", "bionumpy.encodings"))
 
 
-from ..through_time import make_rule as _mk_tt
+from ..through_time import make_rule as _mk_tt, make_t2 as _mk_t2
 _through_time = _mk_tt("C07")
+_small_edits = _mk_t2("C07")
 
 def _retarget_and_shapes(ctx):
     from .c06 import r2_retarget_guard, r4_shape_plumbing
@@ -265,6 +266,7 @@ RULES = [
     ("C07-R5", r5_stale_shape),
     ("C07-R6", _memoised_results),
     ("C07-T1", _through_time),
+    ("C07-T2", _small_edits),
     ("C07-R7", _retarget_and_shapes),
     ("C07-R8", _join_split),
     ("C07-R9", _delta_arrays),
